@@ -76,7 +76,25 @@ class Scenario:
                 kit.submit(desc, "execute")
             env.log("calls-done")
 
-        if params.get("twin"):
+        if params.get("many"):
+            # many threads execute thread payloads that wait for each other: every one of
+            # them has to be running at the same time
+            count = params["many"]
+
+            def many_caller(number):
+                runtime.running.wait()
+                env.sleep(0.5)
+                desc = {"id": "x%d" % number, "flavour": "threading",
+                        "steps": [("barrier", "everyone", count), ("return", "object")],
+                        "args": (), "kwargs": {}}
+                self.calls.append(desc)
+                kit.submit(desc, "execute")
+                if number == 0:
+                    env.log("calls-done")
+
+            for number in range(count):
+                env.spawn(many_caller, "caller%d" % number, number)
+        elif params.get("twin"):
             # two outside threads execute the very same callable at the same time
             desc = self.calls[0]
             shared = kit.payload(desc)
@@ -256,6 +274,8 @@ def scenario_params(tier):
             for outcome in (("return", "object"), ("raise", "LookupError")):
                 out.append({"context": context, "plain": True,
                             "calls": [(flavour, outcome, 1, 0.0)]})
+    # more simultaneous executes than any pool of helper threads would have
+    out.append({"context": "outside", "many": 40, "calls": [], "bound0": True})
     # the executed asyncio payload waits for a reply whose sender knows it only weakly
     for context in CONTEXTS:
         if allowed(context, "asyncio"):
@@ -289,8 +309,10 @@ def run(ctx):
     in_core = (lambda params: True) if ctx.quick else H.core_scenarios(scenario_params)
     specs = [{
         "module": "checks.c10", "params": params,
-        "bound": bound if in_core(params) else 1,
-        "opts": {"time_horizon": 30.0, "drain": 2.0, "max_points": 8000, "free_switch_cost": 1,
+        # (the scenario with many callers: the default schedule only - forty threads)
+        "bound": 0 if params.get("bound0") else (bound if in_core(params) else 1),
+        "opts": {"time_horizon": 30.0, "drain": 2.0,
+                 "max_points": 60000 if params.get("bound0") else 8000, "free_switch_cost": 1,
                      "time_jump_cost": None if ctx.quick else 1},
         "budget": 3000 if ctx.quick else 30000,
     } for params in scenario_params(ctx.tier)]
